@@ -1131,11 +1131,10 @@ func (l *Lowerer) lowerOverride(o *parser.OverrideDecl) error {
 	var id *uint16
 	for _, attr := range o.Attributes {
 		if attr.Name == "id" && len(attr.Args) > 0 {
-			if lit, ok := attr.Args[0].(*parser.Literal); ok {
-				if idVal, parseErr := strconv.ParseUint(lit.Value, 10, 16); parseErr == nil {
-					id16 := uint16(idVal)
-					id = &id16
-				}
+			// a const-expression like the other attribute arguments: 7u, 0x7, 3 + 4, a named constant
+			if idVal, ok := l.evalConstU32Expr(attr.Args[0]); ok && idVal <= 0xFFFF {
+				id16 := uint16(idVal)
+				id = &id16
 			}
 		}
 	}
